@@ -44,7 +44,8 @@ SelfDownCause(o) ==
     \/ o.call = "leave"
     \/ \E i \in DOMAIN UpdatesIn(o) :
           LET u == UpdatesIn(o)[i] IN
-          Addr(u.id) = own /\ (u.st = "D" \/ (u.st = "S" /\ (u.inc = IncMax \/ o.hpre.inc = IncMax)))
+          \* a suspicion at MAX-1 may be followed by another one in the same call
+          Addr(u.id) = own /\ (u.st = "D" \/ (u.st = "S" /\ (u.inc >= IncMax - 1 \/ o.hpre.inc >= IncMax - 1)))
     \/ (DataProcessed(o) /\ o.args.h.msg.k = "TurnUndead")
 
 \* the instance certainly learned that its identity is down (API calls only)
